@@ -14,6 +14,7 @@ def check(ctx):
     ctx.guard(r173, ctx)
     ctx.guard(r176_setup_once, ctx)
     ctx.guard(r177_training_mode, ctx)
+    ctx.guard(r178_raw_output, ctx)
     ctx.guard(r174, ctx)
     ctx.guard(_shared_c17, ctx)
 
@@ -239,6 +240,33 @@ def r176_setup_once(ctx):
     v = calls_to(rf, VAL)
     okf = len(v) == 1 and (kw(v[0], "reinitialize") is TRUE or arg(v[0], 3) is TRUE)
     ctx.ob("R17.6", rf.func, v[0].node if v else None, okf, "fit always re-initialises (reinitialize=True)", construct="fit reinitialises")
+
+
+def r178_raw_output(ctx):
+    ctx.rule("R17.8", "the raw output that predict thresholds is the predictor network's output on X: _raw_predict returns "
+                      "backendEngine_.evaluate(validated X) and both engines' evaluate() apply predictor_model (not the adversary) "
+                      "to X in evaluation mode")
+    from .common import M_PT, M_TF
+    A = Analysis(ctx, max_depth=1, inline=lambda f_, d_: False)
+    r = A.run(CLS + "._raw_predict", cls_ctx=CLS)
+    ev = [e for e in r.events if e.kind == "call" and e.data["fterm"].op == "attr" and e.data["fterm"].args[1] == "evaluate"]
+    ok = len(ev) == 1 and A.eq(ev[0].data["fterm"].args[0], A.entry(r, "self.backendEngine_")) and r.ret is ev[0].data["result"] \
+        and arg(ev[0], 0) is not None and contains(arg(ev[0], 0), lambda s_: s_ is r.params["X"])
+    ctx.ob("R17.8", r.func, ev[0].node if ev else None, ok, "_raw_predict = backendEngine_.evaluate(validated X)", construct="raw predict")
+    for mod, cls in ((M_PT, "PytorchEngine"), (M_TF, "TensorflowEngine")):
+        re_ = A.run(f"{mod}:{cls}.evaluate", cls_ctx=f"{mod}:{cls}")
+        calls = [e for e in re_.events if e.kind == "call" and e.data["fterm"].op == "attr" and e.data["fterm"].args[0] is re_.self_term
+                 and e.data["fterm"].args[1] in ("predictor_model", "adversary_model")]
+        ok = len(calls) == 1 and calls[0].data["fterm"].args[1] == "predictor_model" and contains(arg(calls[0], 0), lambda s_: s_ is re_.params["X"]) \
+            and re_.ret is not None and contains(re_.ret, lambda s_: s_ is calls[0].data["result"])
+        if cls == "TensorflowEngine":
+            ok = ok and kw(calls[0], "training") is FALSE
+        else:
+            evs = [e for e in re_.events if e.kind == "call" and e.data["fterm"].op == "attr" and e.data["fterm"].args[1] == "eval"
+                   and e.data["fterm"].args[0] is mk("attr", re_.self_term, "predictor_model")]
+            ok = ok and bool(evs) and evs[0].seq < calls[0].seq
+        ctx.ob("R17.8", re_.func, calls[0].node if calls else None, ok, f"{cls}.evaluate applies predictor_model to X in evaluation mode",
+               construct=f"{cls}.evaluate")
 
 
 def r177_training_mode(ctx):
